@@ -158,6 +158,7 @@ def dim_env(fi: FuncInfo) -> Dict[str, str]:
 
 
 def check(model: Model, run: Run) -> None:
+    global IS_TEXT
     mr = may_raise(model)
     run.explanation = ("(1) may-raise analysis from LDAPFilter.from_string: the only exception class that can leave is FilterSyntaxError "
                        "(IndexError on the scanner's window view is NOT decided: it needs relational offset arithmetic and is listed as undecided); "
@@ -238,6 +239,25 @@ def check(model: Model, run: Run) -> None:
                     run.fail(Finding("F2-offset-length-dimensions", fq, f"{(q or '').split('.')[-1]}({pname}={norm(args[pname])})",
                                      f"{pname} passed to {(q or '').split('.')[-1]} mixes positions and extents: {why}", model.loc(fi.module, n)))
     run.floor("offset/length argument sites", n_sites, 40)
+    # what the error object itself stores: its constructor keeps the span it is given, in the unit it is given in
+    fse_init = model.find_method(FSE, "__init__")
+    if fse_init is not None:
+        IS_TEXT = lambda x, fi=fse_init: mr.r.strip_opt(mr.r.type_of(x, fi)) in (("prim", "str"), ("prim", "strlike"))
+        env0 = dim_env(fse_init)
+        for a in walk_no_nested(fse_init.node):
+            if isinstance(a, ast.Assign) and len(a.targets) == 1 and isinstance(a.targets[0], ast.Attribute) and norm(a.targets[0].value) == "self" and a.targets[0].attr in ("offset", "length"):
+                want = "A" if a.targets[0].attr == "offset" else "L"
+                d = dim(a.value, env0)
+                if isinstance(a.value, ast.Call) and isinstance(a.value.func, ast.Name) and a.value.func.id in ("min", "max"):
+                    ds = [dim(x, env0) for x in a.value.args]
+                    errs = [x for x in ds if x.startswith("ERR")]
+                    d = errs[0] if errs else (ds[0] if len(set(ds) - {"C"}) <= 1 else f"ERR:{norm(a.value)}: min/max of a position and an extent")
+                ok = not d.startswith("ERR") and d in (want, "C", "?")
+                run.ob("F2-offset-length-dimensions", ok, {"function": "FilterSyntaxError.__init__", a.targets[0].attr: norm(a.value), "dimension": d})
+                if not ok:
+                    run.fail(Finding("F2-offset-length-dimensions", fse_init.qualname, f"self.{a.targets[0].attr}={norm(a.value)}"[:80],
+                                     f"FilterSyntaxError stores {a.targets[0].attr} = `{norm(a.value)[:60]}`: {d[4:] if d.startswith('ERR') else 'a position and an extent are mixed'}; "
+                                     "the reported span can then lie outside the input (negative length for non-ASCII text)", model.loc(fse_init.module, a)))
     # F5: (offset, length) name one span - whoever moves the start must also shorten the extent.  A call / error that is handed
     # the function's own untouched `length` must be handed its own untouched `offset` too.
     n_pairs = 0
